@@ -762,6 +762,40 @@ def r7(ctx):
                  f'that contig is tiled around phantom intervals', key='per-contig-blacklist', what='blacklisted_binning_contigs: blacklist of a previous contig re-used')
 
 
+@rule('C17', 'C17-R8', 'every blacklisted interval of the BED file takes part in the tiling: the loader groups ALL records of a contig (in file order), also when the records of a '
+                       'contig are not adjacent in the file - evaluated on record lists with re-appearing contigs')
+def r8(ctx):
+    import itertools
+    from ..consteval import run_function, Raised, Unfoldable
+    f = ctx.fn(BINCOUNTS, 'get_bins_from_bed_dict')
+    n, bad = 0, None
+    try:
+        for contigs in itertools.product('ab', repeat=4):
+            for k in range(0, 5):
+                recs = [(c, 10 * i, 10 * i + 5) for i, c in enumerate(contigs[:k])]
+
+                def hook(ev, call, env, recs=recs):
+                    d = dotted(call.func) or ''
+                    if d.endswith('get_bins_from_bed_iter'):
+                        return iter(list(recs))
+                    return NotImplemented
+                n += 1
+                got = run_function(f, ['<path>'], env={}, call_hook=hook, budget=20000)
+                want = {}
+                for c, s_, e_ in recs:
+                    want.setdefault(c, []).append((s_, e_))
+                got = {k_: [tuple(x) for x in v_] for k_, v_ in dict(got).items()}
+                if got != want and bad is None:
+                    bad = {'BED records': recs, 'loaded': got, 'expected': want}
+    except (Unfoldable, Raised, Exception) as e_:
+        ctx.emit('C17-R8', False, BINCOUNTS, f, f'get_bins_from_bed_dict is outside the interpreted subset ({type(e_).__name__}: {str(e_)[:80]})', key='blacklist-loader-complete', undecided=True)
+        return
+    ctx.counters['interpreted_cases'] = ctx.counters.get('interpreted_cases', 0) + n
+    ctx.emit('C17-R8', bad is None, BINCOUNTS, f, f'get_bins_from_bed_dict on {n} record lists: every record ends up under its contig, in file order' if bad is None else
+             f'get_bins_from_bed_dict loses blacklisted intervals: {bad} - the tiler then emits bins over blacklisted bases', key='blacklist-loader-complete', witness=bad,
+             what='get_bins_from_bed_dict: blacklist intervals of a contig that re-appears later in the BED file are dropped')
+
+
 META = {
     'text': ('Decides: the overlap test used to trim the blacklist equals true half-open interval overlap on every ordering of (s,e,start,end) '
              '(all Allen relations), trimmed ranges are clamped to the region on both sides, overlapping ranges are merged to their union; the fetch '
